@@ -9,9 +9,11 @@ arbitrary strictly increasing time vectors and any key-sorted permutation of the
 whatever sorting algorithm produced it.
 -/
 import StarsimModel.Lemmas.Loop
+import StarsimModel.Lemmas.LoopInstant
 
 namespace StarsimModel.C08
 open StarsimModel.Loop
+open StarsimModel.LoopInstant
 
 /-! ### Obligations on the regenerated table -/
 
@@ -245,6 +247,89 @@ theorem C08_checks_sound {T : Times} {fl : List Func} {n : Nat} :
     (∀ owners, strictMonoB T owners = true → ∀ m ∈ owners, ∀ i j, i < j → j < T.npts m → T.tv m i < T.tv m j) ∧
     (alignedB T fl = true → Aligned T fl) :=
   ⟨separatedFast_sound, separatedB_sound, fun _ h => strictMonoB_sound h, alignedB_sound⟩
+
+/-! ### Calendar clocks in a year-unit sim: the time vectors are no longer only inputs (round 3)
+
+`Model/LoopInstant.lean`: a date-based owner's time vector in a sim that runs in years is the image of the dates its
+clock shows under `instEps` (`round_tvec(datetoyear(date)) − sim.yearvec[0]`, in eps).  The hypotheses `StrictMono` and
+`Separated` of the theorems above are PROVED for such owners instead of being assumed of the code's vectors. -/
+
+/-- The calendar-instant model counts in the code's `time_eps` (regenerated). -/
+theorem C08_instant_unit_is_eps : Gen.timeEps * (perYear : Rat) = 1 := by decide +kernel
+
+/-- **The own clock denotes the scheduled instant, injectively and monotonically.** For existing days of any years
+    (ordinary, leap, century): a later date is scheduled at least 2732 eps (one day of a leap year) later — also
+    from 31 December to 1 January and between years of different length —, so two clocks show the same date exactly
+    when they are scheduled at the same instant, and an earlier instant is an earlier date. -/
+theorem C08_calendar_instant (y0 : Int) {a b : Reading} (ha : a.Valid) (hb : b.Valid) :
+    (a.lt b → instEps y0 a + 2732 ≤ instEps y0 b) ∧
+    (instEps y0 a = instEps y0 b ↔ a = b) ∧
+    (instEps y0 a < instEps y0 b ↔ a.lt b) := by
+  refine ⟨fun h => instEps_gap y0 ha hb h, ⟨fun h => instEps_inj y0 ha hb h, fun h => by rw [h]⟩,
+    ⟨fun h => lt_of_instEps_lt y0 ha hb h, fun h => ?_⟩⟩
+  have := instEps_gap y0 ha hb h
+  simp only [minGap] at this
+  omega
+
+/-- `round_tvec` never has to break a tie on a calendar instant: `doy0 / len · 10⁶` is never half-way between two
+    integers (so nearest-integer rounding is independent of the tie rule, float or exact). Complete finite space. -/
+theorem C08_no_rounding_ties : ∀ doy0, doy0 < 366 →
+    (2 * doy0 * perYear + 365) % (2 * 365) ≠ 0 ∧ (2 * doy0 * perYear + 366) % (2 * 366) ≠ 0 := by
+  decide +kernel
+
+/-- The time vector built from increasing dates is strictly increasing with steps of at least `minGap`
+    (`increasingB` is what the driver evaluates on every date-based owner of a correspondence case). -/
+theorem C08_calendar_vector (y0 : Int) (rs : List Reading) (h : increasingB rs = true) :
+    (instVec y0 rs).Pairwise (fun x y => x + (minGap : Int) ≤ y) :=
+  instVec_pairwise y0 (increasingB_sound h).1 (increasingB_sound h).2
+
+/-- **End to end on calendar clocks**: for every module set with distinct names and at most 2732 collected functions,
+    whose owners' clocks all show increasing calendar dates `R m k` (the sim's and `people`'s the same ones) and whose
+    time vectors are the instants of those dates: separation and monotonicity hold by the calendar, and the plan is
+    time-sorted, phase-sorted within an instant — an instant being exactly one calendar date —, executed with every
+    clock at its scheduled index, and leaves every clock at its number of points. -/
+theorem C08_loop_calendar (mods : List Mod) (T : Times) (y0 : Int) (R : Nat → Nat → Reading)
+    (hN : NamesDistinct mods) (hC : CalendarTimes T y0 R)
+    (hP : T.npts (mods.length + 1) = T.npts 0 ∧ ∀ k, k < T.npts 0 → T.tv (mods.length + 1) k = T.tv 0 k)
+    (hn : (collect Gen.loopRows mods).length ≤ minGap) :
+    let fl := collect Gen.loopRows mods
+    let p := makePlan T fl
+    p.Pairwise (fun a b => a.time ≤ b.time) ∧
+    p.Pairwise (fun a b => a.time = b.time → a.order < b.order) ∧
+    (∀ ec ∈ trace [] p, ec.2 = ec.1.k) ∧
+    (∀ f ∈ fl, getClk (finalClocks [] p) f.clock = T.npts f.clock) ∧
+    (∀ a ∈ p, ∀ b ∈ p, (a.time = b.time ↔ R a.owner a.k = R b.owner b.k)) := by
+  intro fl p
+  have h := C08_loop mods T hN (calendar_strictMono hC) hP (calendar_separated hC _ hn)
+  refine ⟨h.1, h.2.1, h.2.2.1, h.2.2.2, ?_⟩
+  intro a ha b hb
+  have hp := C08_makePlan_isPlan T fl
+  obtain ⟨f, _, i, hi, rfl⟩ := mem_cross.1 (hp.1.subset ha)
+  obtain ⟨g, _, j, hj, rfl⟩ := mem_cross.1 (hp.1.subset hb)
+  obtain ⟨hvi, hti⟩ := hC.1 f.owner i hi
+  obtain ⟨hvj, htj⟩ := hC.1 g.owner j hj
+  simp only [hti, htj]
+  exact (C08_calendar_instant y0 hvi hvj).2.1
+
+/-- Non-vacuity: a yearly sim 2003–2005 (clock on 1 January; y0 = 2003·10⁶) with a daily intervention running from
+    30 December 2004 (a leap year: day 364 of 366) to 2 January 2005, and `people`.  The hypotheses of
+    `C08_loop_calendar` hold, and 31 December 2004 / 1 January 2005 are different instants 2732 eps apart. -/
+def calMods : List Mod := [⟨.interventions, false, 2⟩]
+def calReadings : List (List Reading) :=
+  [[⟨2003, 0⟩, ⟨2004, 0⟩, ⟨2005, 0⟩], [⟨2004, 364⟩, ⟨2004, 365⟩, ⟨2005, 0⟩, ⟨2005, 1⟩], [⟨2003, 0⟩, ⟨2004, 0⟩, ⟨2005, 0⟩]]
+def calR : Nat → Nat → Reading := fun m k => (calReadings.getD m []).getD k ⟨0, 0⟩
+def calTimes : Times := Times.ofLists (calReadings.map (instVec 2003000000))
+
+example : calReadings.map (instVec 2003000000) =
+    [[0, 1000000, 2000000], [1994536, 1997268, 2000000, 2002740], [0, 1000000, 2000000]] := by decide
+example : calReadings.all increasingB = true := by decide
+example : CalendarTimes calTimes 2003000000 calR :=
+  calendarTimes_ofLists 2003000000 calReadings (by decide)
+/-- …and so do the conclusions (an instance of `C08_loop_calendar`). -/
+example : (makePlan calTimes (collect Gen.loopRows calMods)).Pairwise (fun a b => a.time ≤ b.time) :=
+  (C08_loop_calendar calMods calTimes 2003000000 calR (by unfold NamesDistinct; decide)
+    (calendarTimes_ofLists 2003000000 calReadings (by decide)) (by decide) (by decide)).1
+example : (collect Gen.loopRows calMods).length ≤ minGap := by decide
 
 /-! ### The excluded point of `Separated` is real (known finding C08-tiebreak) -/
 
